@@ -102,7 +102,7 @@ struct ListWorld : World {
     // element bytes the call stores
     Bytes value(const Op &op) const {
         int api = op.d & 7, klass = (op.d >> 3) & 7;
-        if (kind != K_LIST && kind != K_GROW && api == 2) { int64_t n = (int64_t)op.b; return Bytes((const char *)&n, sizeof n); }
+        if (kind != K_LIST && kind != K_GROW && api == 2) { int64_t n = int_value(op.b, op.c); return Bytes((const char *)&n, sizeof n); }
         Bytes v = gen_value(op.b, op.c, klass);
         if (kind == K_GROW && api >= 1) return Bytes(v.c_str());                    // addstr/addstrf: without the terminator
         if ((kind == K_QUEUE || kind == K_STACK) && api == 1) return Bytes(v.c_str()) + Bytes(1, '\0');
@@ -166,8 +166,8 @@ struct ListWorld : World {
             bool ok = false;
             InSut s;
             if (kind == K_LIST) ok = api == 0 ? l->addfirst(l, vp, vb.n) : api == 1 ? l->addlast(l, vp, vb.n) : l->addat(l, idx, vp, vb.n);
-            else if (kind == K_QUEUE) ok = api == 0 ? qq->push(qq, vp, vb.n) : api == 1 ? qq->pushstr(qq, (const char *)vp) : qq->pushint(qq, (int64_t)op.b);
-            else if (kind == K_STACK) ok = api == 0 ? qs->push(qs, vp, vb.n) : api == 1 ? qs->pushstr(qs, (const char *)vp) : qs->pushint(qs, (int64_t)op.b);
+            else if (kind == K_QUEUE) ok = api == 0 ? qq->push(qq, vp, vb.n) : api == 1 ? qq->pushstr(qq, (const char *)vp) : qq->pushint(qq, int_value(op.b, op.c));
+            else if (kind == K_STACK) ok = api == 0 ? qs->push(qs, vp, vb.n) : api == 1 ? qs->pushstr(qs, (const char *)vp) : qs->pushint(qs, int_value(op.b, op.c));
             else {
                 if (api == 0 || !vp) ok = qg->add(qg, vp, vb.n);
                 else ok = api == 1 ? qg->addstr(qg, (const char *)zb.p) : qg->addstrf(qg, "%s", (const char *)zb.p);
